@@ -38,7 +38,12 @@ type seqJob struct {
 	Hist []int `json:"hist"`
 	N    int   `json:"n"` // alphabet size
 	Cfg  int   `json:"cfg"`
+	Ops  []int `json:"ops,omitempty"` // extend by these operations only (nil = the whole alphabet)
 }
+
+// SeqOpsPerJob: how many one-step extensions of a state go into one worker job (0 = the whole
+// alphabet).  Small values give more parallelism when one execution is expensive.
+var SeqOpsPerJob = 0
 
 // Succ is one successor reported by a worker.
 type Succ struct {
@@ -67,6 +72,8 @@ func SeqExec(j *Job, run func(cfg int, hist []int) *SeqOut) *JobResult {
 	ops := make([]int, 0, sj.N)
 	if j.Bound == -1 { // replay of one exact history
 		ops = append(ops, -1)
+	} else if len(sj.Ops) > 0 {
+		ops = append(ops, sj.Ops...)
 	} else {
 		for a := 0; a < sj.N; a++ {
 			ops = append(ops, a)
@@ -157,29 +164,43 @@ func DriveSeq(c *Ctx, kind string, cfg, alphabet, depth int) SeqStats {
 				break
 			}
 			h := h
-			e, _ := json.Marshal(seqJob{Hist: h, N: alphabet, Cfg: cfg})
-			j := Job{Prop: c.Prop.ID, Kind: kind, Tier: c.Tier, Extra: e, Until: c.Deadline.UnixMilli()}
-			c.Pool.Submit(j, func(j Job, r *JobResult) {
-				before := len(c.Agg.Viols)
-				c.Agg.Add(j, r)
-				_ = before
-				var sr seqRes
-				if len(r.Extra) > 0 {
-					json.Unmarshal(r.Extra, &sr)
-				}
-				st.Transitions += r.Execs
-				st.Evals += sr.Evals
-				for _, s := range sr.Succ {
-					isNew := !seen[s.Key]
-					if isNew {
-						seen[s.Key] = true
-						st.States++
+			var chunks [][]int
+			if SeqOpsPerJob > 0 && SeqOpsPerJob < alphabet {
+				for a := 0; a < alphabet; a += SeqOpsPerJob {
+					var ch []int
+					for b := a; b < a+SeqOpsPerJob && b < alphabet; b++ {
+						ch = append(ch, b)
 					}
-					if isNew || len(h)+1 <= SeqFullDepth {
-						next = append(next, append(append([]int{}, h...), s.Op))
-					}
+					chunks = append(chunks, ch)
 				}
-			})
+			} else {
+				chunks = [][]int{nil}
+			}
+			for _, ch := range chunks {
+				e, _ := json.Marshal(seqJob{Hist: h, N: alphabet, Cfg: cfg, Ops: ch})
+				j := Job{Prop: c.Prop.ID, Kind: kind, Tier: c.Tier, Extra: e, Until: c.Deadline.UnixMilli()}
+				c.Pool.Submit(j, func(j Job, r *JobResult) {
+					before := len(c.Agg.Viols)
+					c.Agg.Add(j, r)
+					_ = before
+					var sr seqRes
+					if len(r.Extra) > 0 {
+						json.Unmarshal(r.Extra, &sr)
+					}
+					st.Transitions += r.Execs
+					st.Evals += sr.Evals
+					for _, s := range sr.Succ {
+						isNew := !seen[s.Key]
+						if isNew {
+							seen[s.Key] = true
+							st.States++
+						}
+						if isNew || len(h)+1 <= SeqFullDepth {
+							next = append(next, append(append([]int{}, h...), s.Op))
+						}
+					}
+				})
+			}
 		}
 		c.Pool.Wait()
 		if cut {
